@@ -351,7 +351,7 @@ func runC08(c *core.Ctx) {
 	n := c.Pick(500, 4000)
 	c.RunHistories(n, Registry["C08"].Mons, func(w *core.World) {
 		wts := map[string]int{
-			"edit-new": 10, "edit-copy": 2, "edit-copydir": 1, "edit-mod": 12, "edit-rm": 6, "edit-rmdir": 4,
+			"edit-twin-file": 4, "edit-mod-old": 3, "edit-new": 10, "edit-copy": 2, "edit-copydir": 1, "edit-mod": 12, "edit-rm": 6, "edit-rmdir": 4,
 			"add": 10, "commit-all": 10, "commit": 4, "rm": 2,
 			"switch": 4, "switch-c": 3, "branch-create": 2, "branch-rename": 1,
 		}
@@ -375,6 +375,22 @@ func runC08(c *core.Ctx) {
 			if k.chance(20) {
 				k.Do("switch-c")
 			}
+		}
+		if w.Hist%12 == 6 {
+			// reset issued from a sub-directory of the working tree that holds files with the same relative names as
+			// tracked files at the top (and the bytes of the target snapshot): the snapshot is restored at the root
+			a, b := k.content(), append([]byte("changed\n"), k.content()...)
+			w.Write("twin.txt", a)
+			w.Write("sub dir/twin.txt", a)
+			w.Write("sub dir/inner/twin.txt", a)
+			k.Do("commit-all")
+			w.Write("twin.txt", b)
+			k.Do("commit-all")
+			k.goit("reflog")
+			w.GoitIn(pickS(k.R, []string{"sub dir", "sub dir/inner"}), "reset", pickS(k.R, []string{"--hard", "--hard", "--mixed", "--soft"}), "HEAD@{1}")
+			k.goit("reflog")
+			w.GoitIn("sub dir", "reset", "--hard", "HEAD@{1}")
+			c.Count("C08.resets-from-a-subdirectory")
 		}
 		if w.Hist%9 == 4 {
 			// a commit whose snapshot is empty (everything removed), with ordinary commits before and after it
@@ -434,6 +450,7 @@ type c11State struct {
 	renames  int    // renames/deletes since prev (entries added: unspecified)
 	lastKind string // kind of the last journal-adding command since prev ("" if a rename came after it)
 	msgClass string
+	lastMsg  string // message of that command if it was a commit
 }
 
 func journalKind(st *core.Step) string {
@@ -472,10 +489,12 @@ func (C11Mon) After(w *core.World, st *core.Step) {
 		// did the command really change/touch the journal target? every successful one adds an entry
 		s.adds++
 		s.lastKind = k
+		s.lastMsg = ""
 		if k == "commit" {
 			pa := ParseArgv(st.Argv)
 			if m, ok := pa.Flag("-m", "--message"); ok {
 				s.msgClass = messageClass(m)
+				s.lastMsg = m
 			}
 		}
 		return
@@ -550,10 +569,27 @@ func (C11Mon) After(w *core.World, st *core.Step) {
 		hc := post.HeadCommit()
 		if es[0].Kind != s.lastKind || !strings.HasPrefix(hc, es[0].Prefix) {
 			w.Fail("C11.entry0", "entry0-wrong", trig, "after a successful %s HEAD resolves to %s but HEAD@{0} is %s %s: %s", s.lastKind, short(hc), es[0].Prefix, es[0].Kind, clipS(es[0].Text, 60))
+		} else if s.lastKind == "commit" && plainJournalMessage(s.lastMsg) && es[0].Text != s.lastMsg {
+			// a faithful journal: for a one-line message of plain printable characters the entry reads back what was given
+			w.Fail("C11.entry0", "entry0-text-differs", "message:plain-one-line", "after `commit -m %q` HEAD@{0} reads %q", s.lastMsg, clipS(es[0].Text, 120))
 		}
 	}
 	s.prev, s.havePrev = es, true
-	s.adds, s.renames, s.lastKind, s.msgClass = 0, 0, "", ""
+	s.adds, s.renames, s.lastKind, s.msgClass, s.lastMsg = 0, 0, "", "", ""
+}
+
+// plainJournalMessage: one line of printable ASCII without the separators the journal line itself uses (": ", tab)
+// and without blanks at the ends -- the class for which what the journal shows is not open to interpretation.
+func plainJournalMessage(m string) bool {
+	if m == "" || strings.Contains(m, ": ") || strings.TrimSpace(m) != m || strings.Contains(m, "  ") {
+		return false
+	}
+	for _, r := range m {
+		if r < 0x20 || r > 0x7e {
+			return false
+		}
+	}
+	return true
 }
 
 func bucket(n int) int {
@@ -627,6 +663,15 @@ func runC11(c *core.Ctx) {
 		w.Goit("config", "user.name", name)
 		w.Goit("config", "user.email", email)
 		c.Class("C11.identity|" + icl)
+		if w.Hist == 2 || (c.Thorough() && w.Hist%400 == 2) {
+			// a journal of several hundred entries: positions with three digits, the 255th / 256th entry
+			k.LongHistory(270)
+			k.goit("reflog")
+			for _, pos := range []int{9, 10, 99, 100, 101, 254, 255, 256, 257, 269} {
+				k.goit("reset", pickS(k.R, []string{"--soft", "--mixed", "--hard"}), fmt.Sprintf("HEAD@{%d}", pos))
+				k.goit("reflog")
+			}
+		}
 		steps := c.Pick(34, 40)
 		for i := 0; i < steps; i++ {
 			if k.chance(20) && k.reflogLen() > 0 {
